@@ -1,8 +1,9 @@
 /-
 C10 — static well-formedness rules are enforced and reported truthfully.
-(first layer: exactly one terminal declaration and exactly one start)
+`Spec/WellFormed.lean` states the rules as a predicate on the AST, independently of the code.
 -/
 import KikiVerif.Model.Validate
+import KikiVerif.Proofs.Validate
 
 namespace KikiVerif.C10
 open KikiVerif KikiVerif.Validate KikiVerif.Ast
@@ -42,6 +43,22 @@ theorem C10_one_start_one_terminal (f : File) (v : VFile.File) (h : validateAst 
       · cases hstart
     · cases hstart
 
+/-- **C10, "Ok only if"**: validation succeeds only for files with exactly one start naming a defined
+nonterminal, exactly one terminal declaration, every nonterminal reference a defined *nonterminal* and every
+terminal reference a defined *terminal*, pairwise distinct top-level names (nonterminals, terminal variants,
+terminal enum), per-enum distinct variant names and symbol sequences, and correct capitalisation -/
+theorem C10_ok_sound (f : File) (v : VFile.File) (h : validateAst f = .ok v) : Spec.WellFormed f :=
+  Validate.validate_ok_wellFormed h
+
+/-- the hypotheses of `WellFormed` are satisfiable, and a cross-namespace reference is rejected
+(the defect fixed by commit 1eea08d): a field typed with a terminal's name is not a defined nonterminal -/
+example :
+    let s : Ast.Item := .struct ⟨[], ⟨"S".toList, 13⟩, .named [⟨.id ⟨"x".toList, 17⟩, .n ⟨"A".toList, 20⟩⟩]⟩
+    let t : Ast.Item := .terminal ⟨[], ⟨"T".toList, 33⟩, [⟨⟨"A".toList, 38⟩, .unit⟩]⟩
+    validateAst ⟨[.start ⟨"S".toList, 6⟩, s, t]⟩ = .err (.undefinedNonterminal "A".toList 20) := by
+  rfl
+
 end KikiVerif.C10
 
 #print axioms KikiVerif.C10.C10_one_start_one_terminal
+#print axioms KikiVerif.C10.C10_ok_sound
